@@ -76,6 +76,8 @@ def check_case(case) -> Obs:
     auto_split = case.get("auto_split", True)
     world = World(specs, device=case["device"], grid=0.01, wl_kwargs={"max_volume": M, "auto_split": auto_split})
     obs.cls("auto_split:" + ("on" if auto_split else "off"))
+    if len({s_["name"] for s_ in case["labs"]}) < len(case["labs"]):
+        obs.cls("replica-labware")
     wl = world.wl
     troughs = trough_indices(specs)
     snapshots = []  # (description, live array object, deep copy)
